@@ -151,6 +151,7 @@ type world struct {
 	protected  string // what is kept at rest instead of the master key (hkdf/pbkdf2)
 	lock       *recLock
 	kms        *localkms.LocalKMS
+	failPut    bool // the store refuses Puts (an import that fails at its write)
 	store      kmsapi.Store // THE store object of the rightful key manager
 	crypto     *tinkcrypto.Crypto
 
@@ -271,6 +272,13 @@ func newWorld(cfg string, r *hx.Rng) *world {
 	w := &world{cfg: cfg, matAtom: map[string]int{}, dekAtom: map[string]int{}, nonceID: map[string]int{}, seenPair: map[string]string{}}
 	w.raw = mem.NewProvider()
 	w.rec = hx.NewRecProvider(w.raw)
+	w.rec.Before = func(c *hx.Call) error {
+		if w.failPut && c.Op == "Put" && c.Store == compkms.AriesWrapperStoreName {
+			return hx.ErrInjected
+		}
+
+		return nil
+	}
 	w.masterKey = r.Bytes(32)
 
 	if isRawCfg(cfg) {
@@ -757,6 +765,10 @@ func genBadKey(kt *ktInfo, bad string, r *hx.Rng) (interface{}, [][]byte) {
 		return genImportKey(&ktInfo{imp: "ed"}, r)
 	}
 
+	if bad == "dup" || bad == "existing" || bad == "putfail" {
+		return good, sec
+	}
+
 	ec, isEC := good.(*ecdsa.PrivateKey)
 	if !isEC {
 		return good, sec // Ed25519 keys have no curve/coordinate defects: imported as they are
@@ -914,6 +926,22 @@ func (w *world) apply(pos int, op Op, r *hx.Rng) Obs {
 			w.addSecret("imported private key", s)
 		}
 
+		// well-formed keys whose import fails AT THE STORE: the id check finds the id taken, or the Put fails
+		var badOpts []kmsapi.PrivateKeyOpts
+
+		switch op.Bad {
+		case "existing":
+			// an id that is in use NOW (an id freed by a rotation could be taken again, rightly)
+			for i := len(w.issued) - 1; i >= 0; i-- {
+				if _, e := w.kms.Get(w.issued[i].id); e == nil {
+					badOpts = append(badOpts, kmsapi.WithKeyID(w.issued[i].id))
+					break
+				}
+			}
+		case "putfail":
+			w.failPut = true
+		}
+
 		func() {
 			defer func() {
 				if p := recover(); p != nil {
@@ -921,9 +949,17 @@ func (w *world) apply(pos int, op Op, r *hx.Rng) Obs {
 				}
 			}()
 
-			id, kh, err = w.kms.ImportPrivateKey(priv, kmsapi.KeyType(kt))
+			id, kh, err = w.kms.ImportPrivateKey(priv, kmsapi.KeyType(kt), badOpts...)
+
+			if op.Bad == "dup" && err == nil {
+				// the same key once more: its thumbprint id is taken
+				if _, _, e2 := w.kms.ImportPrivateKey(priv, kmsapi.KeyType(kt)); e2 != nil {
+					w.see("error text", []byte(e2.Error()))
+				}
+			}
 		}()
 
+		w.failPut = false
 		obs.Worked = err == nil
 	case "box":
 		if op.Ref < len(w.issued) {
@@ -1055,9 +1091,79 @@ func encodings(b []byte) map[string][]byte {
 	}
 }
 
+// unescape undoes C / Go / JSON / protobuf-text style escapes (\ooo, \xhh, \u00hh, \n, \", ...): whatever quoting a
+// message was rendered with, the bytes it stands for are scanned.
+func unescape(h []byte) ([]byte, bool) {
+	out := make([]byte, 0, len(h))
+	changed := false
+
+	hexv := func(c byte) int {
+		switch {
+		case c >= '0' && c <= '9':
+			return int(c - '0')
+		case c >= 'a' && c <= 'f':
+			return int(c-'a') + 10
+		case c >= 'A' && c <= 'F':
+			return int(c-'A') + 10
+		}
+
+		return -1
+	}
+
+	for i := 0; i < len(h); i++ {
+		if h[i] != '\\' || i+1 >= len(h) {
+			out = append(out, h[i])
+			continue
+		}
+
+		c := h[i+1]
+
+		switch {
+		case c == 'x' && i+3 < len(h) && hexv(h[i+2]) >= 0 && hexv(h[i+3]) >= 0:
+			out = append(out, byte(hexv(h[i+2])*16+hexv(h[i+3])))
+			i += 3
+			changed = true
+		case c == 'u' && i+5 < len(h) && hexv(h[i+2]) >= 0 && hexv(h[i+3]) >= 0 && hexv(h[i+4]) >= 0 && hexv(h[i+5]) >= 0:
+			r := hexv(h[i+2])<<12 | hexv(h[i+3])<<8 | hexv(h[i+4])<<4 | hexv(h[i+5])
+			if r < 256 {
+				out = append(out, byte(r))
+			} else {
+				out = append(out, []byte(string(rune(r)))...)
+			}
+
+			i += 5
+			changed = true
+		case c >= '0' && c <= '7':
+			v, n := 0, 0
+			for n < 3 && i+1+n < len(h) && h[i+1+n] >= '0' && h[i+1+n] <= '7' {
+				v = v*8 + int(h[i+1+n]-'0')
+				n++
+			}
+
+			out = append(out, byte(v))
+			i += n
+			changed = true
+		default:
+			if r, ok := map[byte]byte{'n': 10, 'r': 13, 't': 9, 'a': 7, 'b': 8, 'f': 12, 'v': 11, '\\': '\\', '"': '"', '\'': '\''}[c]; ok {
+				out = append(out, r)
+				i++
+				changed = true
+			} else {
+				out = append(out, h[i])
+			}
+		}
+	}
+
+	return out, changed
+}
+
 // views of a haystack: itself, and every JSON string member decoded as base64 (std/url), one level
 func views(h []byte) [][]byte {
 	out := [][]byte{h}
+
+	if u, changed := unescape(h); changed {
+		out = append(out, u)
+	}
 
 	var doc map[string]interface{}
 	if json.Unmarshal(h, &doc) == nil {
@@ -1326,6 +1432,54 @@ func runHistory(kind, cfg string, ops []Op, r *hx.Rng, tr *hx.Trace) {
 			}
 		}
 
+		// a configured master lock accepts nothing but a blob IT can decrypt: not the plain master key in any form, not
+		// garbage of key length, not a blob protected under another passphrase — whatever passphrase the lock has
+		if otherLock, e := masterLock(cfg, "another-"+w.passphrase, w.salt); e == nil {
+			rnd := r.Fork(31337).Bytes(32)
+			forms := []struct {
+				what string
+				data []byte
+			}{
+				{"the plain master key as base64URL text", []byte(base64.URLEncoding.EncodeToString(w.masterKey))},
+				{"the plain master key as raw bytes", w.masterKey},
+				{"32 random bytes", rnd},
+				{"base64URL text of 32 random bytes", []byte(base64.URLEncoding.EncodeToString(rnd))},
+				{"base64URL text of 16 random bytes", []byte(base64.URLEncoding.EncodeToString(rnd[:16]))},
+			}
+
+			if enc, e2 := otherLock.Encrypt("", &secretlock.EncryptRequest{Plaintext: string(w.masterKey)}); e2 == nil {
+				forms = append(forms, struct {
+					what string
+					data []byte
+				}{"the master key protected under another passphrase", []byte(enc.Ciphertext)})
+			}
+
+			for _, f := range forms {
+				for _, pass := range []string{w.passphrase, w.passphrase + "x"} {
+					ml, e3 := masterLock(cfg, pass, w.salt)
+					if e3 != nil {
+						continue
+					}
+
+					svc, e3 := local.NewService(bytes.NewReader(append([]byte(nil), f.data...)), ml)
+					if e3 != nil {
+						continue
+					}
+
+					wrongUnlocks = true
+
+					fail("master-lock:accepts-unprotected-key", fmt.Sprintf("local.NewService with a %s master lock accepted %s as master key data", cfg, f.what))
+
+					k2 := w.openOn(svc, w.store)
+					for _, is := range w.issued {
+						if _, e4 := k2.Get(is.id); e4 == nil {
+							fail("master-lock:reads", fmt.Sprintf("Get(%q) succeeded through a lock opened from %s", is.id, f.what))
+						}
+					}
+				}
+			}
+		}
+
 		if _, err := newLock(cfg, nil, w.protected, w.passphrase, append([]byte{1}, w.salt...)); err == nil {
 			wrongUnlocks = true
 
@@ -1465,7 +1619,7 @@ func randomHistory(r *hx.Rng, n int) []Op {
 			ops = append(ops, Op{Kind: "import", KT: imp[r.Intn(len(imp))].name, UID: r.Bool()})
 		case x < 45:
 			ops = append(ops, Op{Kind: "importbad", KT: imp[r.Intn(len(imp))].name,
-				Bad: []string{"curve", "offcurve", "nild", "nilx", "kind", "nil"}[r.Intn(6)]})
+				Bad: []string{"curve", "offcurve", "nild", "nilx", "kind", "nil", "dup", "existing", "putfail"}[r.Intn(9)]})
 		case x < 52:
 			ops = append(ops, Op{Kind: "box", Ref: r.Intn(is + 1)})
 		case x < 75:
@@ -1562,7 +1716,7 @@ func main() {
 				continue
 			}
 
-			for bi, bad := range []string{"curve", "offcurve", "nild", "nilx", "kind", "nil"} {
+			for bi, bad := range []string{"curve", "offcurve", "nild", "nilx", "kind", "nil", "dup", "existing", "putfail"} {
 				if (bi+ci)%2 == 1 && args.Tier != "thorough" {
 					continue // quick: half of the defects per configuration, alternating
 				}
